@@ -26,7 +26,8 @@ rule = ("scripts = 'n begin', node ops, 'n end' (destroy everything, every byte 
         "1..300 bytes (every length around 20 and 212..218) on nodes made for the name ('new') and on nodes of the smallest "
         "size named afterwards ('newsmall', name stored outside the node), cloned alone/as tree/as list; every state of "
         "stream 1 also gets mpt_node_parse with an unknown limits character, with a syntactically broken input (both refused: "
-        "nothing may change) and with an empty input (children replaced by nothing); stream 6: every ordered tree of 6 and 7 "
+        "nothing may change) and with an empty input (children replaced by nothing), and mpt_parse_node WITHOUT detaching the "
+        "children ('pmerge': four small forests incl. nested namesakes are read and merged with the children); stream 6: every ordered tree of 6 and 7 "
         "(thorough: 8) nodes, 'relink x scramble' (all parent/predecessor links below x made wrong) for every inner node x; non-trivial = a node with a grandchild existed at some point of the history "
         "(seen in the code's own walk), counted per distinct script")
 assumptions = [
@@ -212,6 +213,32 @@ class Mirror:
             return False
         return not any(a in self.subtree(y) for y in self.sibs(b))
 
+    def pmerge(self, x, ents):
+        """ents: list of (depth, name); the parsed forest takes the place of the children of x, old children are merged in"""
+        if not ents:
+            return
+        ids, stack, top = [], [], []
+        for d, nm in ents:
+            i = self.next
+            self.next += 1
+            self.name[i] = nm
+            self.kids[i] = []
+            self.parent[i] = None
+            del stack[d:]
+            if stack:
+                self.kids[stack[-1]].append(i)
+                self.parent[i] = stack[-1]
+            else:
+                top.append(i)
+            stack.append(i)
+        old = self.kids[x]
+        self._merge(old, 0, top, 0, x)
+        for c in list(old):
+            self.kill(c)
+        self.kids[x] = top
+        for c in top:
+            self.parent[c] = x
+
     def switch(self, a, b):
         if a == b or b in self.subtree(a) or a in self.subtree(b):
             return
@@ -291,7 +318,8 @@ def _all_ops(m, n, positions, full):
         ops += ["n unlink %d" % x, "n clear %d" % x, "n destroy %d" % x,
                 "n clone %d" % x, "n clone %d tree" % x, "n clone %d list" % x, "n relink %d" % x,
                 "n relink %d scramble" % x, "n nparse %d nsx empty" % x, "n nparse %d ns broken" % x,
-                "n nparse %d nS empty" % x]
+                "n nparse %d nS empty" % x, "n pmerge %d 0:a=1" % x, "n pmerge %d 0:b;1:a=2;0:a" % x,
+                "n pmerge %d 0:a;1:b=2;1:a;2:c=3;0:b=4" % x, "n pmerge %d -" % x]
         for p in positions:
             ops.append("n pos %d %d" % (x, p))
             for nm in ("a", "b"):
@@ -380,7 +408,7 @@ def _random_history(r, length):
         al = m.alive()
         det = [x for x in al if m.detached(x)]
         kind = r.choice(["new", "new", "insert", "insert", "insert", "add", "after", "before", "unlink", "move", "move",
-                         "clone", "clonetree", "clonelist", "clear", "destroy", "locate", "pos", "wild", "swap", "relink", "nparse", "switch"])
+                         "clone", "clonetree", "clonelist", "clear", "destroy", "locate", "pos", "wild", "swap", "relink", "nparse", "switch", "pmerge"])
         if not al or kind == "new" or (len(al) < 4 and r.random() < 0.5):
             nm = r.choice(names)
             if r.random() < 0.15:
@@ -484,6 +512,14 @@ def _random_history(r, length):
             lines.append("n nparse %d %s %s" % (x, lim, inp))
             if inp == "empty" and all(c in "fcnswebFCNSWEB" for c in lim):
                 m.clear(x)
+        elif kind == "pmerge":
+            x = pick(al)
+            ents, d = [], 0
+            for _ in range(r.choice([1, 2, 3, 4])):
+                ents.append((d, r.choice(["a", "b", "c"]), r.random() < 0.5))
+                d = r.choice([0, d, d + 1]) if not ents[-1][2] else r.choice([0, d])
+            lines.append("n pmerge %d %s" % (x, ";".join("%d:%s%s" % (dd, nm, "=v" if hv else "") for dd, nm, hv in ents)))
+            m.pmerge(x, [(dd, nm) for dd, nm, hv in ents])
         elif kind == "switch":
             a, b = pick(al), pick(al)
             lines.append("n switch %d %d" % (a, b))
